@@ -1,6 +1,7 @@
 package main
 
 import (
+	"encoding/json"
 	"flag"
 	"fmt"
 	"os"
@@ -125,6 +126,8 @@ func main() {
 		os.Exit(cmdCheck(os.Args[2:]))
 	case "ssa":
 		cmdSSA(os.Args[2:])
+	case "snapshot":
+		cmdSnapshot(os.Args[2:])
 	default:
 		fmt.Fprintln(os.Stderr, "unknown command", os.Args[1])
 		os.Exit(2)
@@ -219,4 +222,31 @@ func trunc(s string, n int) string {
 		return s[:n] + "…"
 	}
 	return s
+}
+
+// cmdSnapshot writes the (name, type) lists of the locals of every function under contract, in
+// instruction order, to stdout (committed as /verif/locals_snapshot.json; see localAlias).
+func cmdSnapshot(args []string) {
+	fs := flag.NewFlagSet("snapshot", flag.ExitOnError)
+	repo := fs.String("repo", "/repo", "")
+	fs.Parse(args)
+	eng, err := LoadEngine(*repo, "/verif/trusted", []string{"./..."})
+	if err != nil {
+		fmt.Fprintln(os.Stderr, err)
+		os.Exit(2)
+	}
+	out := map[string][][2]string{}
+	for k := range eng.contracts {
+		fn := eng.funcs[k]
+		if fn == nil || len(fn.Blocks) == 0 {
+			continue
+		}
+		var l [][2]string
+		for _, a := range orderedLocals(fn) {
+			l = append(l, [2]string{a.Comment, a.Type().String()})
+		}
+		out[k] = l
+	}
+	data, _ := json.MarshalIndent(out, "", " ")
+	os.Stdout.Write(data)
 }
